@@ -24,6 +24,7 @@ import (
 	"go/token"
 	"os"
 	"path/filepath"
+	"regexp"
 	"strings"
 )
 
@@ -42,6 +43,26 @@ func src(n ast.Node) string {
 	var sb strings.Builder
 	_ = printer.Fprint(&sb, fset, n)
 	return strings.Join(strings.Fields(sb.String()), " ")
+}
+
+// like: the statement text matches the pattern, where every § stands for an arbitrary identifier
+// (receivers, parameters and local variables may be renamed without changing the translation).
+func like(pattern, text string) bool {
+	q := regexp.QuoteMeta(pattern)
+	q = strings.ReplaceAll(q, "§", `[A-Za-z_]\w*`)
+	return regexp.MustCompile("^" + q + "$").MatchString(text)
+}
+
+func likePrefix(pattern, text string) bool {
+	q := regexp.QuoteMeta(pattern)
+	q = strings.ReplaceAll(q, "§", `[A-Za-z_]\w*`)
+	return regexp.MustCompile("^" + q).MatchString(text)
+}
+
+func likeAnywhere(pattern, text string) bool {
+	q := regexp.QuoteMeta(pattern)
+	q = strings.ReplaceAll(q, "§", `[A-Za-z_]\w*`)
+	return regexp.MustCompile(q).MatchString(text)
 }
 
 func findMethod(f *ast.File, name string) *ast.FuncDecl {
@@ -74,18 +95,18 @@ func main() {
 			s := src(st)
 			stmts = append(stmts, s)
 			ifs, ok := st.(*ast.IfStmt)
-			if !ok || ifs.Init == nil || !strings.Contains(src(ifs.Init), "err.(hooks.ErrPaused)") {
+			if !ok || ifs.Init == nil || !strings.Contains(src(ifs.Init), ".(hooks.ErrPaused)") {
 				continue
 			}
 			found = true
 			body := src(ifs.Body)
-			if body != "{ ipr.state = graphsync.Paused return }" {
+			if !like("{ §.state = graphsync.Paused return }", body) {
 				die(ifs.Pos(), "releaseRequestTask: paused branch body not understood: %s", body)
 			}
-			switch src(ifs.Cond) {
-			case "ok":
+			switch {
+			case like("§", src(ifs.Cond)):
 				pauseGuardChecksCtx = false
-			case "ok && ipr.ctx.Err() == nil":
+			case like("§ && §.ctx.Err() == nil", src(ifs.Cond)):
 				pauseGuardChecksCtx = true
 			default:
 				die(ifs.Pos(), "releaseRequestTask: paused branch condition not understood: %s", src(ifs.Cond))
@@ -94,15 +115,15 @@ func main() {
 		if !found {
 			die(fd.Pos(), "releaseRequestTask: no `if _, ok := err.(hooks.ErrPaused); ...` statement")
 		}
-		want := []string{"requestID := task.Topic.(graphsync.RequestID)", "rm.requestQueue.TaskDone(p, task)",
-			"ipr, ok := rm.inProgressRequestStatuses[requestID]", "if !ok { return }"}
+		want := []string{"§ := §.Topic.(graphsync.RequestID)", "§.requestQueue.TaskDone(§, §)",
+			"§, § := §.inProgressRequestStatuses[§]", "if !§ { return }"}
 		for i, wnt := range want {
-			if i >= len(stmts) || stmts[i] != wnt {
+			if i >= len(stmts) || !like(wnt, stmts[i]) {
 				die(fd.Pos(), "releaseRequestTask: statement %d is not `%s`", i, wnt)
 			}
 		}
-		if !strings.HasPrefix(stmts[len(stmts)-1], "rm.terminateRequest(requestID, ipr)") {
-			die(fd.Pos(), "releaseRequestTask: does not end with rm.terminateRequest(requestID, ipr)")
+		if !likePrefix("§.terminateRequest(§, §)", stmts[len(stmts)-1]) {
+			die(fd.Pos(), "releaseRequestTask: does not end with terminateRequest")
 		}
 	}
 
@@ -114,10 +135,10 @@ func main() {
 		}
 		a := src(fd.Body.List[0])
 		b := src(fd.Body.List[1])
-		if a != "if ipr.terminalError == nil { ipr.terminalError = terminalError }" {
+		if !like("if §.terminalError == nil { §.terminalError = § }", a) {
 			die(fd.Pos(), "cancelOnError: first statement not understood: %s", a)
 		}
-		if b != "if ipr.state != graphsync.Running { rm.terminateRequest(requestID, ipr) } else { ipr.cancelFn() ipr.reconciledLoader.SetRemoteOnline(false) }" {
+		if !like("if §.state != graphsync.Running { §.terminateRequest(§, §) } else { §.cancelFn() §.reconciledLoader.SetRemoteOnline(false) }", b) {
 			die(fd.Pos(), "cancelOnError: second statement not understood: %s", b)
 		}
 	}
@@ -129,31 +150,31 @@ func main() {
 		for _, st := range fd.Body.List {
 			s := src(st)
 			switch {
-			case strings.Contains(s, "otel.Tracer") || strings.HasPrefix(s, "defer span.End()") || strings.HasPrefix(s, "defer ipr.span.End()"):
+			case strings.Contains(s, "otel.Tracer") || like("defer §.End()", s) || like("defer §.span.End()", s):
 				// tracing
-			case strings.HasPrefix(s, "if ipr.terminalError != nil {"):
-				if !strings.Contains(s, "case ipr.inProgressErr <- ipr.terminalError:") || !strings.Contains(s, "case <-rm.ctx.Done():") {
+			case likePrefix("if §.terminalError != nil {", s):
+				if !like("if §.terminalError != nil { select { case §.inProgressErr <- §.terminalError: case <-§.ctx.Done(): } }", s) {
 					die(st.Pos(), "terminateRequest: terminal error send not understood: %s", s)
 				}
 				stages = append(stages, "sendTerminalError")
-			case s == "rm.connManager.Unprotect(ipr.p, requestID.Tag())":
+			case like("§.connManager.Unprotect(§.p, §.Tag())", s):
 				stages = append(stages, "unprotect")
-			case s == "delete(rm.inProgressRequestStatuses, requestID)":
+			case like("delete(§.inProgressRequestStatuses, §)", s):
 				stages = append(stages, "delete")
-			case s == "ipr.cancelFn()":
+			case like("§.cancelFn()", s):
 				stages = append(stages, "cancelFn")
-			case strings.HasPrefix(s, "if ipr.reconciledLoader != nil { ipr.reconciledLoader.Cleanup("):
+			case likePrefix("if §.reconciledLoader != nil { §.reconciledLoader.Cleanup(", s):
 				stages = append(stages, "loaderCleanup")
-			case strings.HasPrefix(s, "if ipr.traverser != nil { ipr.traverserCancel() ipr.traverser.Shutdown("):
+			case likePrefix("if §.traverser != nil { §.traverserCancel() §.traverser.Shutdown(", s):
 				stages = append(stages, "traverserShutdown")
-			case s == "select { case <-rm.ctx.Done(): return default: }":
+			case like("select { case <-§.ctx.Done(): return default: }", s):
 				stages = append(stages, "shutdownCheck")
-			case s == "close(ipr.inProgressChan)":
+			case like("close(§.inProgressChan)", s):
 				stages = append(stages, "closeProgress")
-			case s == "close(ipr.inProgressErr)":
+			case like("close(§.inProgressErr)", s):
 				stages = append(stages, "closeErrors")
-			case strings.HasPrefix(s, "for _, onTerminated := range ipr.onTerminated {"):
-				if !strings.Contains(s, "case onTerminated <- nil:") {
+			case likePrefix("for _, § := range §.onTerminated {", s):
+				if !likeAnywhere("case § <- nil:", s) {
 					die(st.Pos(), "terminateRequest: onTerminated loop not understood")
 				}
 				stages = append(stages, "notifyTerminated")
@@ -167,8 +188,8 @@ func main() {
 	{
 		fd := findMethod(f, "processTerminations")
 		s := src(fd.Body)
-		want := "{ for _, response := range responses { if response.Status().IsTerminal() { if response.Status().IsFailure() { rm.cancelOnError(response.RequestID(), rm.inProgressRequestStatuses[response.RequestID()], response.Status().AsError()) } ipr, ok := rm.inProgressRequestStatuses[response.RequestID()] if ok && ipr.reconciledLoader != nil { ipr.reconciledLoader.SetRemoteOnline(false) } } } }"
-		if s != want {
+		want := "{ for _, § := range § { if §.Status().IsTerminal() { if §.Status().IsFailure() { §.cancelOnError(§.RequestID(), §.inProgressRequestStatuses[§.RequestID()], §.Status().AsError()) } §, § := §.inProgressRequestStatuses[§.RequestID()] if § && §.reconciledLoader != nil { §.reconciledLoader.SetRemoteOnline(false) } } } }"
+		if !like(want, s) {
 			die(fd.Pos(), "processTerminations: body not understood: %s", s)
 		}
 	}
@@ -203,7 +224,7 @@ func main() {
 	{
 		fd := findMethod(f, "cancelRequest")
 		s := src(fd.Body)
-		if !strings.HasSuffix(s, "rm.SendRequest(inProgressRequestStatus.p, gsmsg.NewCancelRequest(requestID)) rm.cancelOnError(requestID, inProgressRequestStatus, terminalError) }") {
+		if !likeAnywhere("§.SendRequest(§.p, gsmsg.NewCancelRequest(§)) §.cancelOnError(§, §, §) }", s) || !strings.HasSuffix(s, ") }") {
 			die(fd.Pos(), "cancelRequest: tail not understood: %s", s)
 		}
 	}
@@ -224,20 +245,20 @@ func main() {
 				return true
 			}
 			found = true
-			if src(ifs.Cond) != "ok && !requestSent" {
+			if !like("§ && !§", src(ifs.Cond)) {
 				die(ifs.Pos(), "traverse: go-online condition not understood: %s", src(ifs.Cond))
 			}
 			var st []string
 			for _, x := range ifs.Body.List {
 				st = append(st, src(x))
 			}
-			base := []string{"requestSent = true", "rt.ReconciledLoader.SetRemoteOnline(true)",
-				"if err := e.startRemoteRequest(rt); err != nil { return err }", "result = rt.ReconciledLoader.RetryLastLoad()"}
-			check := "select { case <-rt.Ctx.Done(): rt.ReconciledLoader.SetRemoteOnline(false) return ipldutil.ContextCancelError{} default: }"
+			base := []string{"§ = true", "§.ReconciledLoader.SetRemoteOnline(true)",
+				"if § := §.startRemoteRequest(§); § != nil { return § }", "§ = §.ReconciledLoader.RetryLastLoad()"}
+			check := "select { case <-§.Ctx.Done(): §.ReconciledLoader.SetRemoteOnline(false) return ipldutil.ContextCancelError{} default: }"
 			switch {
-			case len(st) == 4 && st[0] == base[0] && st[1] == base[1] && st[2] == base[2] && st[3] == base[3]:
+			case len(st) == 4 && like(base[0], st[0]) && like(base[1], st[1]) && like(base[2], st[2]) && like(base[3], st[3]):
 				goOnlineChecksCtx = false
-			case len(st) == 5 && st[0] == base[0] && st[1] == base[1] && st[2] == check && st[3] == base[2] && st[4] == base[3]:
+			case len(st) == 5 && like(base[0], st[0]) && like(base[1], st[1]) && like(check, st[2]) && like(base[2], st[3]) && like(base[3], st[4]):
 				goOnlineChecksCtx = true
 			default:
 				die(ifs.Pos(), "traverse: go-online block not understood: %s", strings.Join(st, " ; "))
@@ -250,8 +271,8 @@ func main() {
 		// ExecuteTask tail
 		et := findMethod(ef, "ExecuteTask")
 		tail := src(et.Body)
-		want := "if err != nil { span.RecordError(err) if !ipldutil.IsContextCancelErr(err) { e.manager.SendRequest(requestTask.P, gsmsg.NewCancelRequest(requestTask.Request.ID())) requestTask.ReconciledLoader.SetRemoteOnline(false) if !isPausedErr(err) { span.SetStatus(codes.Error, err.Error()) select { case <-requestTask.Ctx.Done(): case requestTask.InProgressErr <- err: } } } } e.manager.ReleaseRequestTask(pid, task, err)"
-		if !strings.Contains(tail, want) || !(strings.Contains(tail, "err := e.traverse(requestTask) "+want) || strings.Contains(tail, "err := e.traverseRecovered(requestTask) "+want)) {
+		want := "§ := §.traverse§(§) if § != nil { §.RecordError(§) if !ipldutil.IsContextCancelErr(§) { §.manager.SendRequest(§.P, gsmsg.NewCancelRequest(§.Request.ID())) §.ReconciledLoader.SetRemoteOnline(false) if !isPausedErr(§) { §.SetStatus(codes.Error, §.Error()) select { case <-§.Ctx.Done(): case §.InProgressErr <- §: } } } } §.manager.ReleaseRequestTask(§, §, §)"
+		if !(likeAnywhere(want, tail) || likeAnywhere(strings.Replace(want, "§.traverse§(§)", "§.traverse(§)", 1), tail)) {
 			die(et.Pos(), "ExecuteTask: tail not understood")
 		}
 	}
